@@ -190,6 +190,106 @@ def ob_window(h):
     h.check("window_has_no_row_from_beyond_one_row_past_the_pinch", len(got) <= len(want) + 1)
 
 
+# ---- ASSIGN, any number of utilities (loop cut) ----------------------------------------------------------
+
+def ob_maximise(h):
+    """MAXIMISE (callee contract used by C03.assign.u): on a load profile that nowhere exceeds its end value `limit`, the duty offered to one utility
+    is never negative and never more than what is still unassigned:  0 <= r <= max(0, limit - Q_assigned)."""
+    n = h.choice("rows", [2, 3])
+    hot = h.choice("hot_side", [True, False])
+    T = h.reals("T", n)
+    for i in range(n - 1):
+        h.assume(T[i] - T[i + 1] >= 1.0)
+    H = h.reals("H", n)
+    limit = H[0] if hot else H[n - 1]
+    for v in H:
+        h.assume(And(v >= 0, v <= limit))
+    Ts, Tt, Qa = h.real("Ts"), h.real("Tt"), h.real("Q_assigned", lo=0)
+    h.assume(Ts != Tt)
+    arr = (lambda v: npx.array(v)) if h.symbolic else (lambda v: __import__("numpy").array(v, dtype=float))
+    r = ut._maximise_utility_duty(arr(T), arr(H), Ts, Tt, hot, Qa)
+    h.check("offered_duty_not_negative", r >= 0)
+    h.check("offered_duty_not_above_the_unassigned_remainder", r <= smax(0.0, limit - Qa))
+
+
+def ob_assign_u(h):
+    """ASSIGN for ANY number of utilities on one side: the loop of _assign_utility is cut (pvc/loopcut.py) with
+
+        INV(i):  0 <= Q_assigned <= limit,   Q_assigned = A(i)          ghost A(0) = 0, A(i+1) = A(i) + (duty of utility i after its turn)
+        element  utility i ends with duty d' where 0 <= d' and A(i) + d' <= limit; its level is untouched; CP' * span = d' if it was assigned
+
+    with _maximise_utility_duty replaced by its contract MAXIMISE (C03.maximise.b) and a recorder for the call-site contract "the running total and the
+    utility's own temperatures (shifted or real as requested, hot end first on the hot side) are what is passed".  Utilities start from zero duty
+    (C03.utilities_list.b).  A `break` leaves the loop from inside the generic iteration: the same element clauses are stated on that path."""
+    import z3
+    from pvc.loopcut import CutSeq
+    from pvc.sym import SymInt, SymReal
+    hot = h.choice("hot_side", [True, False])
+    real_T = h.choice("real_temperatures", [False, True])
+    nrows = 3
+    T = [100.0, 90.0, 80.0]
+    H = h.reals("H", nrows)
+    p = 2 if hot else 0
+    limit = H[0] if hot else H[nrows - 1]
+    h.assume(limit >= 0)
+    n = SymInt(z3.Int("n_utilities"))
+    h.assume(n >= 0)
+    I, R = z3.IntSort(), z3.RealSort()
+    ts, tt, dt, A = (z3.Function(k, I, R) for k in ("ut_t_supply", "ut_t_target", "ut_dt_cont", "assigned_up_to"))
+    h.ctx.add_axiom(A(z3.IntVal(0)) == 0)
+    zi = lambda i: i.z if isinstance(i, SymInt) else z3.IntVal(i)
+    calls = []
+
+    def maximise(T_segment, H_segment, Ts, Tt, is_hot_ut, Q_assigned):
+        r = h.fresh_real("offered")
+        h.assume(And(r >= 0, r <= smax(0.0, limit - Q_assigned)))          # MAXIMISE (C03.maximise.b)
+        calls.append((Ts, Tt, is_hot_ut, Q_assigned, r))
+        return r
+    h.stub(ut, "_maximise_utility_duty", maximise)
+
+    def elem(i):
+        z = zi(i)
+        h.ctx.add_axiom(z3.And(dt(z) >= 0, (ts(z) > tt(z)) if hot else (ts(z) < tt(z))))
+        return Stream("Ui", SymReal(ts(z)), SymReal(tt(z)), dt_cont=SymReal(dt(z)), heat_flow=0.0, htc=1.0, is_process_stream=False)
+
+    def inv(i, L):
+        return [("running_total_not_negative", L["Q_assigned"] >= 0), ("running_total_not_above_the_side_target", L["Q_assigned"] <= limit),
+                ("running_total_is_the_sum_of_the_assigned_duties", h.eq(L["Q_assigned"], SymReal(A(zi(i)))))]
+
+    def havoc(i, L):
+        return {"Q_assigned": h.fresh_real("Q_assigned")}
+
+    def ghost(i, L, e):
+        h.ctx.add_axiom(A(zi(i) + 1) == A(zi(i)) + (e._heat_flow.z if isinstance(e._heat_flow, SymReal) else e._heat_flow))
+
+    def element_clauses(i, e, before):
+        d = e._heat_flow
+        out = [("duty_not_negative", d >= 0), ("assigned_so_far_not_above_the_side_target", before + d <= limit),
+               ("level_untouched", And(h.eq(e._t_supply, SymReal(ts(zi(i)))), h.eq(e._t_target, SymReal(tt(zi(i)))))),
+               ("heat_capacity_goes_with_the_duty", h.eq(e._CP * (e._t_max - e._t_min), d)),
+               ("exactly_one_offer_per_utility", len(calls) == 1)]
+        if len(calls) == 1:
+            Ts, Tt, is_hot_ut, Qa, r = calls[0]
+            want = ((e.t_max, e.t_min) if real_T else (e.t_max_star, e.t_min_star)) if hot else ((e.t_min, e.t_max) if real_T else (e.t_min_star, e.t_max_star))
+            out.append(("offer_is_asked_for_this_utilitys_own_temperatures_and_the_running_total", And(h.eq(Ts, want[0]), h.eq(Tt, want[1]), is_hot_ut is hot, h.eq(Qa, before))))
+            out.append(("duty_is_the_offer_or_untouched", Or(h.eq(d, r), And(h.eq(d, 0.0), r <= tol))))
+        return out
+
+    HEAP = ("_heat_flow", "_CP", "_RCP_prod", "_ut_cost")
+    seq = CutSeq(h, "utilities", n, elem, inv, havoc, modifies=lambda L: [(seq.it.e if hasattr(seq.it, "e") else cur[0], a) for a in HEAP], ghost=ghost,
+                 elem_post=lambda i, L, e: element_clauses(i, e, seq.it.state["Q_assigned"]))
+    cur = [None]
+    _elem = seq.elem
+    seq.elem = lambda i: cur.__setitem__(0, _elem(i)) or cur[0]
+    arr = npx.array
+    out = ut._assign_utility(arr(T), arr(H), seq, p, is_hot_ut=hot, is_real_temperatures=real_T)
+    h.check("returns_the_list_it_was_given", out is seq)
+    if seq.left_early:
+        # `break` inside the generic iteration: the element clauses on that path (the ghost sum is not needed: nothing follows)
+        for nm, cl in element_clauses(seq.it.i, seq.it.e, seq.it.state["Q_assigned"]):
+            h.check(f"utilities.on_break.{nm}", cl)
+
+
 # ---- CLOSURE / REACH ----------------------------------------------------------------------------------
 
 
@@ -297,6 +397,14 @@ def obligations():
                    stubs=("pydantic UtilitySchema.model_validate",)),
         Obligation("C03.utilities_list.b", ob_utilities_list, kind="bounded", bound="1..2 utility records of any type / activity, all values symbolic", functions=[dp._create_utilities_list],
                    max_paths=100000),
+        Obligation("C03.maximise.b", ob_maximise, kind="bounded", bound="load profiles of 2..3 rows (>= 1 K apart) that nowhere exceed their end value, every cell, both utility temperatures and the running total symbolic; both sides",
+                   functions=[ut._maximise_utility_duty], max_paths=200000, expect=("offered_duty_not_above_the_unassigned_remainder",),
+                   doc="MAXIMISE: 0 <= offered duty <= what is still unassigned (callee contract of C03.assign.u)"),
+        Obligation("C03.assign.u", ob_assign_u, kind="proof", functions=[ut._assign_utility, Stream.set_heat_flow], stubs=("_maximise_utility_duty (contract MAXIMISE, C03.maximise.b)",), max_paths=100000,
+                   expect=("utilities.base.running_total_is_the_sum_of_the_assigned_duties", "utilities.preserved.running_total_not_above_the_side_target", "utilities.element.duty_not_negative",
+                           "utilities.frame", "utilities.on_break.duty_not_negative"),
+                   bound="ANY number of utilities on one side at arbitrary levels (loop cut with an inductive invariant and a ghost sum); 3-row profile, both sides, shifted and real temperatures",
+                   doc="ASSIGN for every number of utilities: no duty negative, the duties assigned so far never exceed the side's target, levels untouched, CP goes with the duty"),
         Obligation("C03.window", ob_window, kind="bounded", bound="tables of 2..5 rows, pinch on any row, both sides (path-complete over the pinch row)", functions=[ut._assign_utility]),
     ]
     base = Obligation("C03.assign.b", _ob_assign(4, 2), kind="bounded", functions=fa, max_paths=400000, timeout_ms=20000,
